@@ -1,5 +1,6 @@
 """Value syntax shared with driver/main.ml, and a handle on the driver process."""
 import math
+import os
 import subprocess
 import numbers
 
@@ -95,7 +96,8 @@ class DriverError(Exception):
 class Driver:
     """Runs build/driver; call(op, *args) -> decoded answer."""
 
-    def __init__(self, path="/verif/build/driver"):
+    def __init__(self, path=None):
+        path = path or os.path.join(os.environ.get("VERIF_HOME", "/verif"), "build/driver")
         self.p = subprocess.Popen(
             ["/bin/sh", "-c", "ulimit -s unlimited 2>/dev/null; exec " + path],
             stdin=subprocess.PIPE, stdout=subprocess.PIPE, text=True, bufsize=1 << 16)
